@@ -147,6 +147,10 @@ class Protocol(metaclass=InlineDocstring):
         ]
         return '\n'.join(res)
 
+    def __call__(self) -> dict:
+        """Returns the protocol in the RPC-like format, the same way an RPC protocol query does."""
+        return self._proto
+
     def __iter__(self):
         return iter(proto_to_files(self._proto))
 
